@@ -21,6 +21,15 @@
        MonitorUpdatingPersister over a recording, fault-injecting store and runs the real recovery
        at every crash point x landed subset.
     3. TLC validates that trace against MUPAbstract.tla (MUPTrace).
+    4. The caller's side: MUP.tla also models ChainMonitor (watch_channel / update_channel: the update
+       is applied to the in-memory monitor first; accepted -> Some(update), refused by a closed
+       monitor -> full monitor write; block connections; InProgress + channel_monitor_updated;
+       archiving).  Its scripts (MUPMCcq / MUPMCc) drive `kvstore --mode cm`: a REAL ChainMonitor
+       over the real MonitorUpdatingPersister, fed real updates (pre-close updates -- also after a
+       block took the monitor on chain, when the monitor refuses them --, ChannelForceClosed,
+       preimages), crashes + the real recovery at every store operation.  Same trace spec.
+       MUPMCbad.cfg (design mutant: a refused update is stored like an accepted one) must violate
+       CrashRecoveredCoversReported.
 """
 import json, os, random, shutil, subprocess, time
 import vlib
@@ -78,6 +87,52 @@ def convert_mup(s):
         else:
             ops.append({"op": o["op"], "lazy": o["lazy"]})
     return {"maxp": s["maxp"], "ops": ops, "faults": faults}
+
+
+CM_CALL_OPS = ("new", "upd", "sync", "cleanup", "close", "archive")
+
+
+def convert_cm(s):
+    """TLC history of the caller-side model -> script of `kvstore --mode cm`."""
+    ops, faults = [], []
+    for o in s["ops"]:
+        if o["op"] == "fault":
+            faults.append({"n": o["n"], "mode": o["mode"]})
+        elif o["op"] == "defer":
+            idx = max([i for i, x in enumerate(ops) if x["op"] in ("new", "upd")] or [-1])
+            if idx >= 0:
+                ops[idx]["defer"] = True
+        elif o["op"] == "crash":
+            c = {"op": "crash", "after": o["after"], "land": o["land"], "landmon": o["landmon"]}
+            idx = max([i for i, x in enumerate(ops) if x["op"] in CM_CALL_OPS] or [-1])
+            if o["after"] > 0 and idx >= 0:
+                ops.insert(idx, c)
+            else:
+                c["after"] = 0
+                ops.append(c)
+        else:
+            ops.append({"op": o["op"], "lazy": o["lazy"], "kind": o["kind"], "defer": False})
+    # channel_monitor_updated may come at any later point (MComplete is enabled whenever a completion is
+    # outstanding; TLC reaches the resulting states on a shorter path first, so its scripts never contain it):
+    # every other script with a deferred completion delivers it one call later
+    di = [i for i, x in enumerate(ops) if x.get("defer")]
+    if di and len(ops) % 2 == 0:
+        nxt = [i for i, x in enumerate(ops) if i > di[0] and x["op"] in CM_CALL_OPS]
+        at = nxt[0] + 1 if nxt else len(ops)
+        if not any(x["op"] == "crash" for x in ops[di[0]:at]):
+            ops.insert(at, {"op": "complete", "lazy": False, "kind": "", "defer": False})
+    return {"maxp": s["maxp"], "ops": ops, "faults": faults}
+
+
+def has_refusal(sc):
+    """a pre-close update after the block that took the monitor on chain"""
+    closed = False
+    for o in sc["ops"]:
+        if o["op"] == "close":
+            closed = True
+        elif o["op"] == "upd" and o["kind"] == "pre" and closed:
+            return True
+    return False
 
 
 def dedupe(objs):
@@ -226,8 +281,12 @@ def selftest_mup(wd, recs):
     for k, r in enumerate(recs):
         if r["ev"] == "reset":
             rep = set()
-        if r["ev"] == "ret" and r["status"] == "completed" and r["kind"] in ("new", "upd"):
+        if r["ev"] == "ret" and r["status"] == "completed" and r["kind"] in ("new", "upd", "full"):
             rep.add(r["id"])
+        if r["ev"] == "complete":
+            rep.add(r["id"])
+        if r["ev"] == "archive":
+            rep = set()
         if r["ev"] == "rec" and r["kind"] == "ok" and rep and "rec-behind" not in done and r["rid"] >= 1 \
                 and max(rep) >= 1:
             m = [dict(x) for x in recs]
@@ -244,6 +303,11 @@ def selftest_mup(wd, recs):
             m[k]["eq"] = False
             muts.append(("rec-unequal", m))
             done.add("rec-unequal")
+        if r["ev"] == "rec" and r["kind"] == "ok" and rep and "rec-err" not in done:
+            m = [dict(x) for x in recs]
+            m[k].update({"kind": "err", "rid": -1, "eq": False, "rf": False})
+            muts.append(("rec-err", m))
+            done.add("rec-err")
         if r["ev"] == "rec" and r["kind"] == "ok" and "rec-panic" not in done:
             m = [dict(x) for x in recs]
             m[k].update({"kind": "panic", "rid": -1, "eq": False})
@@ -343,6 +407,29 @@ def run(tier, seed):
     mup_spath = os.path.join(wd, "mup-scripts.ndjson")
     write_ndjson(mup_spath, mup_scripts)
 
+    cm_cfg = "MUPMCc.cfg" if thorough else "MUPMCcq.cfg"
+    cm_actions = ["MNew", "MUpdate", "MUpdateRefused", "MChainClose", "MArchive", "MStep", "MStepFail", "MReturn",
+                  "MReturnInProgress", "MLand", "MCrash"]
+    r, sc = mc("MUPMC", cm_cfg, cm_actions, 3000 if thorough else 900)
+    mcs.append(("MUPMC/" + cm_cfg, r))
+    cm_all = dedupe([convert_cm(x) for x in sc])
+    cm_all = [x for x in cm_all if sum(1 for o in x["ops"] if o["op"] == "upd") >= 1]
+    cm_ref = [x for x in cm_all if has_refusal(x)]
+    cm_oth = [x for x in cm_all if not has_refusal(x)]
+    cap = 3000 if thorough else 320
+    cm_scripts = (rng.sample(cm_ref, cap) if len(cm_ref) > cap else cm_ref) + \
+                 (rng.sample(cm_oth, cap // 2) if len(cm_oth) > cap // 2 else cm_oth)
+    if len(cm_ref) < 50:
+        raise vlib.ToolError("caller-side model produced only %d scripts with a refused update" % len(cm_ref))
+    cm_spath = os.path.join(wd, "cm-scripts.ndjson")
+    write_ndjson(cm_spath, cm_scripts)
+    # the design mutant "a refused update is handed to the persister like an accepted one" must be caught by the
+    # design-level invariant (sanity of the model of refusal + recovery)
+    rb = vlib.tlc_mc(PID, "MUPMC", "MUPMCbad.cfg", workers=4, timeout=600, coverage=False)
+    if rb["violated"] != "CrashRecoveredCoversReported":
+        raise vlib.ToolError("design mutant MUPMCbad.cfg not rejected by CrashRecoveredCoversReported: %s" % rb["violated"])
+    rb.pop("out")
+
     # ---- 2. run the real code
     fs_dir = os.path.join(wd, "fs-scratch")
     fs_trace = os.path.join(wd, "trace-fs.ndjson")
@@ -371,6 +458,24 @@ def run(tier, seed):
         raise vlib.ToolError("no usable monitor update history was captured")
     if mup["recoveries"] < 5 * mup["runs"] or mup["persister_calls"] < 3 * mup["runs"]:
         raise vlib.ToolError("persister driver mostly skipped: vacuous")
+
+    cm_trace = os.path.join(wd, "trace-cm.ndjson")
+    ncmrand = 400 if thorough else 48
+    cm = run_engine(bins["kvstore"], ["--mode", "cm", "--out", cm_trace, "--scripts", cm_spath,
+                                      "--histories", 4 if thorough else 2, "--random", ncmrand, "--seed", seed],
+                    os.path.join(wd, "summary-cm.json"), timeout=6000)
+    vlib.log("[kvstore cm] %s" % cm)
+    if not cm["histories"] or not all(h["force_close_update"] and h["preimage_update"] for h in cm["histories"]):
+        raise vlib.ToolError("no usable monitor / update material for the ChainMonitor driver")
+    # vacuity of the ChainMonitor driver is judged after trace validation: a run that died early because the
+    # code under test panicked is a (validated, reported) violation, not a tool error
+    cm_vacuous = None
+    if cm["recoveries"] < 5 * cm["runs"] or cm["persister_calls"] < 3 * cm["runs"] or cm["updates"] < 2 * cm["runs"]:
+        cm_vacuous = "ChainMonitor driver mostly skipped: vacuous"
+    elif cm["refused_at_non_multiple"] < 50 or cm["refused_at_multiple"] < 10 or cm["closes"] < 50 \
+            or cm["restarts"] < 50 or cm["archives"] < 5 or cm["completions"] < 5:
+        cm_vacuous = ("ChainMonitor driver: refused updates / closes / restarts / archives / deferred "
+                      "completions hardly exercised: vacuous")
 
     # ---- 3. trace validation (the oracle)
     nviol = 0
@@ -419,12 +524,34 @@ def run(tier, seed):
                                  "MUPTrace.cfg MUPTrace.tla" % (nhist, seed)}, key=key):
             nviol += 1
 
+    tot_cm, fails = vlib.validate_trace(PID, "MUPTrace", "MUPTrace.cfg", cm_trace, timeout=1800, tag="cm")
+    for fl in fails:
+        runid = fl["run"]
+        evs = [x for x in fl["run_events"] if x["ev"] != "rec" or x is fl["rec"]]
+        key = "panic" if fl["rec"].get("ev") == "panic" else None
+        label = fl["run_events"][0].get("label") if fl["run_events"] else None
+        if vlib.report_violation(PID, "cm-run%d" % runid, {
+                "property": PID, "part": "ChainMonitor driving MonitorUpdatingPersister", "kind": fl["kind"],
+                "invariant": fl["inv"], "offending_event": fl["rec"], "position_in_run": fl["pos_in_run"],
+                "run": label, "seed": seed, "histories": cm["histories"],
+                "store_operations_and_reports_of_run": evs[:400],
+                "recoveries_of_run": [x for x in fl["run_events"] if x["ev"] == "rec"][:200],
+                "last_state": fl["last_state"],
+                "how_to_replay": "harness/target/debug/kvstore --mode cm --scripts <file with run.script> "
+                                 "--histories %d --seed %d --out t.ndjson; cd spec; TRACE=t.ndjson tlc -config "
+                                 "MUPTrace.cfg MUPTrace.tla" % (4 if thorough else 2, seed)}, key=key):
+            nviol += 1
+
+    if nviol == 0 and cm_vacuous:
+        raise vlib.ToolError(cm_vacuous)
+
     # ---- 4. binding self-tests on the heads of the accepted traces
     st = None
     if nviol == 0:
         st = {"kvstore": selftest_fs(wd, head_runs(fs_trace, 1500)),
               "kvstore_issue_order": selftest_async(wd, fs_trace),
-              "mup": selftest_mup(wd, head_runs(mup_trace, 3000))}
+              "mup": selftest_mup(wd, head_runs(mup_trace, 3000)),
+              "chainmonitor": selftest_mup(wd, head_runs(cm_trace, 2000))}
         vlib.log("[selftest] %s" % st)
 
     with open(fs_trace) as f:
@@ -436,7 +563,7 @@ def run(tier, seed):
     cov = {
         "states": sum(r["distinct"] for _, r in mcs),
         "transitions": sum(r["states"] for _, r in mcs),
-        "traces_validated_against_impl": fs["runs"] + mup["runs"],
+        "traces_validated_against_impl": fs["runs"] + mup["runs"] + cm["runs"],
         "samples": [kv_scripts[0] if kv_scripts else None, mup_scripts[0] if mup_scripts else None,
                     {"fs_trace_head": fs_head}, {"mup_trace_head": mup_head}],
         "mc_runs": [{"cfg": c, "distinct": r["distinct"], "generated": r["states"], "depth": r["depth"],
@@ -449,6 +576,11 @@ def run(tier, seed):
                 "persister_calls": mup["persister_calls"], "crash_recoveries_run": mup["recoveries"],
                 "recovery_panics": mup["recovery_panics"], "events_validated": tot_mup,
                 "real_histories": hist_short},
+        "chainmonitor": {k: v for k, v in cm.items() if k != "histories"},
+        "chainmonitor_events_validated": tot_cm,
+        "chainmonitor_histories": cm["histories"],
+        "design_mutant_refused_as_update": {"cfg": "MUPMCbad.cfg", "violated": rb["violated"],
+                                            "distinct": rb["distinct"]},
         "binding_selftest": st,
         "exhaustive": False,
     }
@@ -460,6 +592,9 @@ def run(tier, seed):
         "a lazy removal is either landed or not at a crash; while running it is visible as removed",
         "after an UnrecoverableError the node stops (ChainMonitor panics); no further persistence is modelled",
         "monitor equality is the library's `==` after connecting the node's own blocks to the recovered monitor",
-        "archive_persisted_channel is not covered",
+        "ChainMonitor driver: the monitor goes on chain by a block past the expiry of a pending outbound HTLC; "
+        "archiving is the persister call ChainMonitor makes for a fully resolved monitor (the 4032-block "
+        "resolution delay is not run); InProgress is produced by a wrapper around the synchronous persister and "
+        "completed through ChainMonitor::channel_monitor_updated (MonitorUpdatingPersisterAsync is not driven)",
     ], time.time() - t0, nviol)
     return nviol
